@@ -103,6 +103,43 @@ def collapse_ws(nodes, which=None):
     return fix(nodes)
 
 
+def ws_subset_match(ast, got: bytes) -> bool:
+    """does `got` equal the reference encoding with the runs of spaces
+    collapsed in SOME of the occurrences of double-space values? (a rendering
+    spells each occurrence its own way - as a string, as hex, as an int - and
+    only the string spellings go through the tokenizer that collapses)"""
+    import copy
+    import itertools
+    tree = copy.deepcopy(ast)
+    occ = []
+
+    def walk(x):
+        if isinstance(x, list):
+            for i, y in enumerate(x):
+                if isinstance(y, bytes):
+                    if b'  ' in y:
+                        try:
+                            y.decode()
+                            occ.append((x, i, y))
+                        except UnicodeDecodeError:
+                            pass
+                else:
+                    walk(y)
+    walk(tree)
+    if not occ or len(occ) > 8:
+        return False
+    for r in range(1, len(occ) + 1):
+        for sub in itertools.combinations(range(len(occ)), r):
+            for k, (lst, i, y) in enumerate(occ):
+                lst[i] = re.sub(rb' +', b' ', y) if k in sub else y
+            try:
+                if asm.assemble_program(tree) == got:
+                    return True
+            except asm.AsmError:
+                pass
+    return False
+
+
 def only_ws_collapsed(got: bytes, ref: bytes) -> bool:
     """True iff got differs from ref only in value operands whose whitespace
     runs were collapsed to one space (known finding: tokenizer re-joins string
@@ -195,7 +232,9 @@ def judge_source(ctx, src, ref, feats, ast, profile, case_collapsed=None):
             if 'string-multispace' in feats:
                 collapsed = asm.assemble_program(collapse_ws(ast, wsv))
             if 'string-multispace' in feats and (
-                    only_ws_collapsed(got, ref) or got == collapsed):
+                    only_ws_collapsed(got, ref) or got == collapsed
+                    or ws_subset_match(ast, got)):
+                collapsed = got
                 key = 'string-whitespace-collapsed'
             elif 'upper_s_prefix' in feats and \
                     got == asm.assemble_program(upper_strings(ast)):
